@@ -62,6 +62,17 @@ CLAIMS = {
             "Every LTS of the bound with every partition and every reflexive-transitive block relation (plus random larger ones with parallel edges and truncated "
             "output size) is run through the real engine; TLC computes the greatest simulation inside the lifted preorder and compares all k*k entries.",
             "Trusted: TLC and the gfp definition (the property's wording).", "DESIGN.md §4 C16"),
+    "C17": (MC, "random MTBDD handle histories replayed on OndriksMTBDD<int>; sequential TLA+ trace validation (TraceMtbdd) of full value tables, default values and == after every step against the function semantics MTBDDSem",
+            "Every operation of the package (construction with don't-cares, apply1/2/3, Project, Rename, ExtendWith, GetMtbddForPrefix, copy, assign, destroy) is a "
+            "spec action on functions [assignment -> value]; TLC accepts a recorded history only if after every step the logged 16-entry table of every live handle "
+            "equals the spec function and == holds exactly between equal functions (canonicity).",
+            "Trusted: TLC. 4 variables, values mod 5, 4 handles; Rename/ExtendWith arguments inside their documented domains.", "DESIGN.md §4 C17"),
+    "C18": (MC, "TLC model check of the reference-count protocol (MtbddStore: store = reachable nodes, counts = referrers, mutants refuted); TLC-generated and random histories replayed on OndriksMTBDD with unique-table sizes read through the VATA_VERIF hook; sequential trace validation of sizes and values",
+            "The spec computes the exact node set of the reduced diagrams of the live functions; after every step the logged sizes of the leaf and internal unique "
+            "tables must equal it (nothing released early, nothing leaked) and every live handle keeps its function; at the end of each history the store is back at "
+            "its base size. The protocol itself is model-checked for all interleavings of mk/copy/assign(self)/apply/destroy over 3 handles.",
+            "Trusted: TLC, the two read-only hook accessors. Double release that happens not to change a size/value is only caught by the model, not observed on the code "
+            "(no sanitizer in this family).", "DESIGN.md §4 C18"),
 }
 
 NOT_APPLICABLE = {
